@@ -129,6 +129,7 @@ type hsServer struct {
 	Reject       int // 0 none 1 OnHost 2 OnHeader 3 OnRequest 4 OnBeforeUpgrade
 	RejectStatus int
 	RejectBare   bool // the rejection carries a status only: no reason, no header
+	RejectClose  bool // the rejection's header says "Connection: close" (the body still belongs to the response)
 	BeforeHeader string
 	RBuf, WBuf   int
 	Trailing     []byte
@@ -282,6 +283,7 @@ func drawHS(r *eng.Run) (hsClient, hsServer) {
 		s.Reject = 1 + r.T.Int(sim.LFault, 4)
 		s.RejectStatus = []int{0, 400, 401, 403, 500, 503}[r.T.Int(sim.LFault, 6)]
 		s.RejectBare = s.RejectStatus != 0 && r.T.Chance(sim.LFault, 1, 3)
+		s.RejectClose = s.RejectStatus != 0 && !s.RejectBare && r.T.Chance(sim.LFault, 1, 3)
 	}
 	s.HdrForm = []int{0, 0, 1, 2}[r.T.Int(sim.LCfg, 4)]
 	if s.Kind != 1 && r.T.Chance(sim.LCfg, 1, 8) {
@@ -432,8 +434,12 @@ func (s hsServer) rejectErr() error {
 	if s.RejectBare {
 		return ws.RejectConnectionError(ws.RejectionStatus(s.RejectStatus))
 	}
+	hdr := "X-Rejected: yes\r\n"
+	if s.RejectClose {
+		hdr += "Connection: close\r\n"
+	}
 	return ws.RejectConnectionError(ws.RejectionStatus(s.RejectStatus), ws.RejectionReason("sim: rejected with status"),
-		ws.RejectionHeader(ws.HandshakeHeaderString("X-Rejected: yes\r\n")))
+		ws.RejectionHeader(ws.HandshakeHeaderString(hdr)))
 }
 
 func (s hsServer) negotiate(flate *wsflate.Extension) func(httphead.Option) (httphead.Option, error) {
@@ -1314,6 +1320,34 @@ func C11(r *eng.Run) {
 	rand.Seed(rseed)
 	cbase := runClient(r, cb, pipeFor(r, cb.wire(t.Server.Written), SegAll))
 	compareOutcome(r, "dialer", cbase, t.Client, fmt.Sprintf("one segment/default buffers vs seg=%d rbuf=%d wbuf=%d", segC, c.RBuf, c.WBuf), t)
+	// The same response from a server that ends its lines (or only its status
+	// line) with a bare LF: whatever the dialer makes of it, it makes the same
+	// of it under every chunking.
+	if !(c.TLS && c.Debug != 0) && r.T.Chance(sim.LCfg, 1, 3) {
+		resp := t.Server.Written
+		he := headEnd(resp)
+		var lf []byte
+		if r.T.Bool(sim.LCfg) {
+			lf = append(bytes.Replace(resp[:he:he], []byte("\r\n"), []byte("\n"), 1), resp[he:]...)
+		} else {
+			lf = append(bytes.ReplaceAll(resp[:he:he], []byte("\r\n"), []byte("\n")), resp[he:]...)
+		}
+		rand.Seed(rseed)
+		la := runClient(r, cb, pipeFor(r, lf, SegAll))
+		rand.Seed(rseed)
+		lb := runClient(r, c, pipeFor(r, lf, segC))
+		compareOutcome(r, "dialer", la, lb, fmt.Sprintf("response with bare LF line ends: one segment/default buffers vs seg=%d rbuf=%d wbuf=%d", segC, c.RBuf, c.WBuf), t)
+		if la.HasOnResp != lb.HasOnResp || !bytes.Equal(la.OnResp, lb.OnResp) {
+			r.Failf("debug_dialer_response_bytes", "response with bare LF line ends: DebugDialer.OnResponse got %d bytes with one segment/default buffers, %d with seg=%d rbuf=%d%s", len(la.OnResp), len(lb.OnResp), segC, c.RBuf, firstDiff(la.OnResp, lb.OnResp))
+		}
+		if la.ok() && la.HasOnResp && !bytes.Equal(la.OnResp, lf[:len(lf)-len(resp[he:])]) {
+			r.Failf("debug_dialer_response_bytes", "response with bare LF line ends: DebugDialer.OnResponse got %d bytes, the response head has %d", len(la.OnResp), len(lf)-len(resp[he:]))
+		}
+		r.Probe("response_with_bare_lf_line_ends")
+		if len(la.StatusSeen) > 0 {
+			r.Probe("status_callback_on_response_with_bare_lf")
+		}
+	}
 	// The reports of the first round trip, looked at again after all the
 	// further handshakes of this run: an application that keeps what its
 	// callbacks were given still has the same bytes.
